@@ -2,4 +2,6 @@ import XzVerif.Props.C12
 #print axioms Props.C12.C12_leading_padding_rejected
 #print axioms Props.C12.C12_no_stream_rejected
 #print axioms Props.C12.C12_clean_end_consumes_all
+#print axioms Props.C12.C12_concatenation
+#print axioms Props.C12.C12_single_stream
 #print axioms Props.C12.C12_input_preserved
